@@ -261,6 +261,7 @@ type flowOpts struct {
 	uefi     bool
 	physPct  int  // share of image references given as physical addresses
 	extraArt bool // also reference a register-file artifact
+	multi    bool // volumes with several generated files
 }
 
 func (g *gen) flow(i int) *hflow {
@@ -378,7 +379,9 @@ func (g *gen) flow0(i int) *hflow {
 
 func (g *gen) generic(o flowOpts) *hflow {
 	f := &hflow{kind: o.kind, exact: true}
-	if o.uefi {
+	if o.multi {
+		g.uefiMultiImage(f)
+	} else if o.uefi {
 		g.uefiImage(f)
 	} else {
 		g.plainImage(f)
